@@ -20,3 +20,21 @@ Definition all_binops := [B_Add; B_Sub; B_Mult; B_MatMult; B_Div; B_Mod; B_Pow; 
                           B_BitOr; B_BitXor; B_BitAnd; B_FloorDiv].
 Definition all_boolops := [L_And; L_Or].
 Definition all_cmpops := [C_Eq; C_NotEq; C_Lt; C_LtE; C_Gt; C_GtE; C_Is; C_IsNot; C_In; C_NotIn].
+
+(* Which of the rendering repairs the tree under test contains (regenerated from expressions.py by the translator:
+   Gen/C03_tables.v [tree_fixes]).  The model, the gap classifier and every theorem are stated for all values of the flags;
+   [fx_none] is the printer before any repair, [fx_all] the printer with all of them.
+     fx_prec    operands are parenthesised by precedence (_Precedence / _precedence / _yield(precedence=...))
+     fx_lambda  ExprLambda.iterate writes `/` and `*` markers from the repaired loop
+     fx_tuple0  the empty tuple keeps its parentheses as a subscript
+     fx_intattr an integer literal is parenthesised as the value of an attribute access
+     fx_genexp  generator expressions write their own parentheses (a sole call argument stands for the call's)
+     fx_fconv   ExprFormatted stores and prints conversion and format spec
+     fx_fesc    literal text of an f-string is escaped
+     fx_fglue   a replacement field whose value starts with `{` gets a space after its brace
+     fx_fnest   _build_joinedstr resets in_formatted_str
+     fx_litroot _build_subscript tests for typing.Literal only on chains of names *)
+Record fixes := mkFx { fx_prec : bool; fx_lambda : bool; fx_tuple0 : bool; fx_intattr : bool; fx_genexp : bool;
+                       fx_fconv : bool; fx_fesc : bool; fx_fglue : bool; fx_fnest : bool; fx_litroot : bool }.
+Definition fx_none : fixes := mkFx false false false false false false false false false false.
+Definition fx_all : fixes := mkFx true true true true true true true true true true.
